@@ -913,7 +913,7 @@ theorem try_closed {g : Graph} {s : St} (hw : WF g) (hI : Inv g s) {t i y : Nat}
     (hcmd : g.cmdAt t i = some (.try_ y)) (hret : Ev.ret t i true ∈ s.tr) (hna : s.pc t ≠ .afterCmd i) :
     hasDone s.tr (g.tryd y).body ∧
     (∀ h ∈ g.handlers y, Ev.cmd h 0 ∈ s.tr → hasDone s.tr h) ∧
-    (∀ h ∈ g.handlers y, Ev.hacc h ∈ s.tr → hasDone s.tr h ∨ acceptedAfterCause g s.tr h) ∧
+    (∀ h ∈ g.handlers y, Ev.hacc h ∈ s.tr → hasDone s.tr h) ∧
     (∀ h ∈ selected g s.tr y, handlerFate g s.tr y h) := by
   have ht : t < g.n := by
     rcases Nat.lt_or_ge t g.n with h | h
@@ -941,7 +941,7 @@ theorem try_closed {g : Graph} {s : St} (hw : WF g) (hI : Inv g s) {t i y : Nat}
   · intro h hh hc
     exact ((hI.ti h).fin (hfin h hh (accepted_of_cmd hI hc))).1
   · intro h hh hc
-    exact Or.inl ((hI.ti h).fin (hfin h hh (hI.ha h hc))).1
+    exact ((hI.ti h).fin (hfin h hh (hI.ha h hc))).1
   · -- the try goroutine is done
     have Y := hI.yi y hy
     have hst : s.tg y ≠ .idle := Y.started' (by rw [ho, hi]; exact hret)
@@ -966,7 +966,7 @@ theorem try_closed {g : Graph} {s : St} (hw : WF g) (hI : Inv g s) {t i y : Nat}
     · have hf := hfin h hhand ha
       by_cases hc0 : Ev.cmd h 0 ∈ s.tr
       · exact Or.inl hc0
-      · refine Or.inr (Or.inl ⟨hac, Or.inl ?_⟩)
+      · refine Or.inr (Or.inl ⟨hac, ?_⟩)
         rcases ((hI.ti h).fin hf).1 with hd | hd
         · exact absurd (cmd0_of_done_true hw hI.ok (handler_facts hw hy hhand).1 hd) hc0
         · exact hd
@@ -1487,7 +1487,7 @@ theorem waits_accepted_of_canCreate {g : Graph} {s : St} (hw : WF g) (hI : Inv g
   intro w hwm
   unfold canCreate at h
   simp only [Bool.and_eq_true] at h
-  have h1 := h.1
+  have h1 := h.1.1
   rw [show (101 : Nat) = 100 + 1 from rfl] at h1
   unfold validWL at h1
   rw [List.all_eq_true] at h1
@@ -2081,7 +2081,8 @@ theorem inv_handler_acc {g : Graph} {s s' : St} (hI : Inv g s) {y hh : Nat} {nex
 theorem inv_handler_rej {g : Graph} {s s' : St} (hI : Inv g s) {y hh : Nat} {next : TG}
     (H : HandlerAt g s y next true hh) (hrk : (s.tg y).rank + 1 = next.rank) (hn5 : next.rank ≤ 5)
     (hnid : s.tg y ≠ .idle)
-    (hact : s.pc (g.tryd y).owner = .afterCmd (g.tryd y).idx) (hroot : s.cerr 0 = true)
+    (hact : s.pc (g.tryd y).owner = .afterCmd (g.tryd y).idx)
+    (hroot : s.cerr 0 = true ∨ s.cerr (g.ctx hh) = true)
     (hpc' : s'.pc = upd s.pc hh .rejected) (htg' : s'.tg = upd s.tg y .done)
     (hcerr' : s'.cerr = upd s.cerr (g.ctx (g.tryd y).owner) true) (htr' : s'.tr = s.tr ++ [.hrej hh])
     (hmp' : s'.mp = s.mp)
@@ -2112,8 +2113,10 @@ theorem inv_handler_rej {g : Graph} {s s' : St} (hI : Inv g s) {y hh : Nat} {nex
     · subst hzy; exact hI.tgr z hnid
     · rw [htg', upd_other _ _ hzy] at hz; exact hI.tgr z hz
   have hown_ne : (g.tryd y).owner ≠ hh := by intro h; rw [h, hcidle] at hact; cases hact
-  have hroot0 : causeIn g 0 s.tr := by
-    rcases hI.i2 0 hroot with h | h <;> exact h
+  have hroot0 : causeFor g s.tr hh := by
+    rcases hroot with h0 | h0
+    · rcases hI.i2 0 h0 with h | h <;> exact Or.inr h
+    · exact hI.i2 _ h0
   have hi3 : I3 g s' := by
     apply i3_frame hI.i3 htr0
     · intro u ha _
@@ -2158,9 +2161,15 @@ theorem inv_handler_rej {g : Graph} {s s' : St} (hI : Inv g s) {y hh : Nat} {nex
     intro X hX
     rw [hcerr', upd_apply] at hX
     split at hX
-    · rw [htr']; exact Or.inr (Or.inr (causeIn_mono _ hroot0))
+    · rename_i hXe
+      subst hXe
+      rw [htr']
+      have := causeFor_mono [Ev.hrej hh] hroot0
+      unfold causeFor at this
+      rw [H.ctx] at this
+      exact Or.inr this
     · exact Or.inl hX
-  · rw [htr']; exact traceOk_snoc hI.ok ⟨H.ih, H.sb rfl, Or.inr hroot0⟩
+  · rw [htr']; exact traceOk_snoc hI.ok ⟨H.ih, H.sb rfl, hroot0⟩
 
 /-- what is known after one `Runner.Run` of a handler (or its omission): either the try goroutine
 moved on and the handler (if it was to be run) exists and its acceptance is in the trace, or the
@@ -2281,10 +2290,16 @@ theorem inv_submitHandler {g : Graph} {s : St} (hI : Inv g s) {y : Nat} (hy : y 
           exact ⟨by show (upd s.pc hh _ hh).accepted = true; rw [upd_same]; rfl,
                  by show Ev.hacc hh ∈ s.tr ++ [Ev.hacc hh]; simp⟩⟩)
       intro _; exact upd_other _ _ hown_ne
-    · have hroot : s.cerr 0 = true := by
-        unfold canCreate at hcan
+    · have hroot : s.cerr 0 = true ∨ s.cerr (g.ctx hh) = true := by
+        unfold canCreate submitCtxOk at hcan
         rw [H.nw, validWL_nil] at hcan
-        simpa using hcan
+        have hih := H.ih
+        unfold isHandler at hih
+        cases hr : g.role hh <;> simp [hr] at hih hcan
+        all_goals
+          cases h0 : s.cerr 0
+          · exact Or.inr (hcan h0)
+          · exact Or.inl rfl
       have hs' : submitHandler g s y (some hh) true next =
           emit { s with pc := upd s.pc hh PC.rejected, cerr := upd s.cerr (g.ctx (g.tryd y).owner) true,
                         tg := upd s.tg y TG.done } (.hrej hh) := by
